@@ -248,6 +248,26 @@ _UNARY_OPERATORS = unary_arithmetic_operators | set(date_part_operators) | {
 _VARIADIC_OPERATORS = {'$add', '$and', '$concat', '$multiply', '$or', '$setUnion'}
 
 
+def _validate_variable_name(name):
+    """Check a name that $let, $map or $filter binds: a lower-case ASCII letter (or a character
+    outside ASCII) followed by ASCII letters, digits, underscores (or characters outside ASCII).
+    """
+    if name == 'CURRENT':
+        return
+    if not isinstance(name, str):
+        raise OperationFailure('a variable name must be a string, found: %s' % type(name))
+    if not name:
+        raise OperationFailure('empty variable names are not allowed')
+    if not re.match(r'[a-z]|[^\x00-\x7f]', name):
+        raise OperationFailure(
+            "'%s' starts with an invalid character for a user variable name" % name)
+    invalid = re.search(r'[^a-zA-Z0-9_\x80-\U0010ffff]', name)
+    if invalid:
+        raise OperationFailure(
+            "'%s' contains an invalid character for a variable name: '%s'"
+            % (name, invalid.group()))
+
+
 class _Parser(object):
     """Helper to parse expressions within the aggregate pipeline."""
 
@@ -528,6 +548,8 @@ class _Parser(object):
                     raise OperationFailure('Unrecognized parameter to $let: {}'.format(field))
             if not isinstance(value['vars'], dict):
                 raise OperationFailure('invalid parameter: expected an object (vars)')
+            for var_key in value['vars']:
+                _validate_variable_name(var_key)
             user_vars = {
                 var_key: self._parse_or_nothing(var_value)
                 for var_key, var_value in value['vars'].items()
@@ -816,6 +838,8 @@ class _Parser(object):
                 if k not in {'input', 'as', 'in'}:
                     raise OperationFailure('Unrecognized parameter to $map: %s' % k)
 
+            _validate_variable_name(value.get('as', 'this'))
+
             input_array = self._parse_or_nothing(value['input'])
 
             if input_array is None or input_array is NOTHING:
@@ -859,6 +883,7 @@ class _Parser(object):
             missing_params = {'input', 'cond'} - set(value)
             if missing_params:
                 raise OperationFailure("Missing '%s' parameter to $filter" % missing_params.pop())
+            _validate_variable_name(value.get('as', 'this'))
 
             input_array = self._parse_or_nothing(value['input'])
             if input_array is None or input_array is NOTHING:
